@@ -51,7 +51,40 @@ class LimCtx:
         it = Interp(self.proj, GvnDomain(A))
         return A, it
 
+    # Reductions used as branch conditions (`if np.all(a > 0): ...`) are interpreted for ONE entry
+    # of an arbitrary array: np.all(P) is False if P fails at this entry and otherwise free (the
+    # other entries decide); np.any(P) is True if P holds at this entry and otherwise free.  Free
+    # outcomes are enumerated by `policy` (the i-th free outcome of an evaluation is policy[i],
+    # True beyond its end); every enumerated path is realisable by an array whose other entries
+    # make the reductions come out that way, so every clause must hold on every path.
+    policy = ()
+    free_used = 0
+    max_free = 0
+    path = ""
+
+    def _reduction(self, it, kind):
+        def h(args, kwargs):
+            if len(args) != 1 or kwargs:
+                raise AnalysisError("np.%s with axis / several arguments in a limiter" % kind)
+            t = it.truth(args[0])
+            if t is None:
+                raise AnalysisError("np.%s of a condition that is not decided in this region" % kind)
+            if (kind == "all" and t is False) or (kind == "any" and t is True):
+                return t
+            i = self.free_used
+            self.free_used += 1
+            self.max_free = max(self.max_free, self.free_used)
+            ch = self.policy[i] if i < len(self.policy) else True
+            self.path += " np.%s(...)=%s" % (kind, ch)
+            return ch
+        return h
+
     def phi(self, A, it, a, b):
+        self.free_used = 0
+        self.path = ""
+        it.np_hooks = dict(it.np_hooks or {})
+        it.np_hooks["all"] = self._reduction(it, "all")
+        it.np_hooks["any"] = self._reduction(it, "any")
         v = it.call_function(self.f, [a, b])
         if isinstance(v, (int, Fraction)):
             v = A.const(v)
@@ -206,6 +239,9 @@ class MagDomain:
 
     def truth(self, c):
         return None
+
+    def unknown_cond(self):
+        return UNK
 
     def cand(self, a, b):
         return UNK
